@@ -18,6 +18,7 @@ PAGE = 4096
 def managed_program(rng, thorough):
     lines = ["new asm x86", "nd", "nd"]
     fields = []          # (start, size) of tracked fields, for choosing what sessions overwrite
+    trail = {}           # (start, size) -> bytes of the same instruction behind the field
     off = 0
 
     def emit(n):
@@ -28,21 +29,25 @@ def managed_program(rng, thorough):
     def add_field():
         nonlocal off
         c = rng.below(10)
+        # the field need not end its instruction: `mov QWORD [->cell], imm32` has an immediate behind the displacement (field_offset > size)
+        tr = rng.choice([0, 0, 0, 1, 4, 8, 8])
         if c < 4:
             # absolute address of a label (AbsToRel), 8 bytes, data-directive style
             kind = rng.choice(["rb", "rg", "rd"])
             toff = rng.choice([0, 0, 5, -3])
-            lines.append(f"ex {hexb(rng.bytes(8))}")
-            off += 8
+            lines.append(f"ex {hexb(rng.bytes(8 + tr))}")
+            off += 8 + tr
             name = {"rb": 1, "rg": 9, "rd": 0}[kind]
-            lines.append(f"{kind} {name} {toff} 8 8 x86.8.1")
-            fields.append((off - 8, 8))
+            lines.append(f"{kind} {name} {toff} {8 + tr} {8 + tr} x86.8.1")
+            fields.append((off - 8 - tr, 8))
+            trail[(off - 8 - tr, 8)] = tr
         elif c < 7:
             # relative distance to a fixed external address (RelToAbs), 8 bytes
-            lines.append(f"ex {hexb(rng.bytes(8))}")
-            off += 8
-            lines.append(f"rx @{rng.range(-2**40, 2**40)} 8 0 x86.8.2")
-            fields.append((off - 8, 8))
+            lines.append(f"ex {hexb(rng.bytes(8 + tr))}")
+            off += 8 + tr
+            lines.append(f"rx @{rng.range(-2**40, 2**40)} {8 + tr} 0 x86.8.2")
+            fields.append((off - 8 - tr, 8))
+            trail[(off - 8 - tr, 8)] = tr
         elif c < 9:
             # call rel32 to an external address within +-2 GiB of the mapping
             lines.append("ex " + hexb(bytes([0xE8]) + rng.bytes(4)))
@@ -73,13 +78,19 @@ def managed_program(rng, thorough):
             mode = rng.choice(["none", "some", "all", "new", "rewrite"])
             victims = [] if mode in ("none", "new") else (list(fields) if mode == "all" else [f for f in fields if rng.chance(1, 2)])
             for (st, n) in victims:
+                tr = trail.get((st, n), 0)
+                if tr and rng.chance(1, 2):
+                    # only the bytes BEHIND the field (the immediate): the field itself is untouched and stays tracked
+                    lines.append(f"goto {st + n}")
+                    lines.append(f"ex {hexb(rng.bytes(tr))}")
+                    continue
                 lines.append(f"goto {st}")
-                # cover the field fully, with a little slack on either side where there is room
+                # cover exactly the field: it is forgotten, whatever follows it in its instruction
                 lines.append(f"ex {hexb(rng.bytes(n))}")
                 fields.remove((st, n))
             if mode in ("none", "new", "rewrite"):
                 # write somewhere that holds no tracked field; possibly a new tracked field
-                free = [i for i in range(0, off - 12) if not any(s - 12 <= i < s + m for (s, m) in fields)]
+                free = [i for i in range(0, off - 12) if not any(s - 12 <= i < s + m + trail.get((s, m), 0) for (s, m) in fields)]
                 if free:
                     at = rng.choice(free)
                     lines.append(f"goto {at}")
@@ -115,7 +126,7 @@ def managed_program(rng, thorough):
         else:
             # the session writes an absolute reference that resolves, then a reference that does not: the first one is patched (and must be
             # tracked from then on: it is in the buffer) before the session fails on the second
-            free = [i for i in range(0, off - 24) if not any(s - 24 <= i < s + m + 8 for (s, m) in fields + victims)]
+            free = [i for i in range(0, off - 24) if not any(s - 24 <= i < s + m + 8 + trail.get((s, m), 0) for (s, m) in fields + victims)]
             if free:
                 at = rng.choice(free)
                 toff = rng.choice([0, 0, 5, -3])
